@@ -4,7 +4,7 @@
    history of received lines, registrations and unregistrations, s over every client state. *)
 From Coq Require Import List Arith ZArith NArith Bool Lia.
 Import ListNotations.
-Require Import FV.Gen.C12 FV.C12.Model FV.C12.Lemmas FV.C12.ConcModel FV.C12.ConcLemmas FV.C12.ReModel FV.C12.ReLemmas.
+Require Import FV.Gen.C12 FV.C12.Model FV.C12.Lemmas FV.C12.ConcModel FV.C12.ConcLemmas FV.C12.ReModel FV.C12.ReLemmas FV.C12.Run.
 
 (* obligations on the facts regenerated from /repo (Gen/C12.v) *)
 Theorem C12_source_facts :
@@ -13,7 +13,8 @@ Theorem C12_source_facts :
   update_value_order = true /\ callback_iterates_copy = true /\ unregister_handler_checks_membership = true /\
   register_appends_in_place = true /\
   dispatch_removes_from_fetched_list = true /\ internalize_shape = true /\
-  error_default_is_InternalError = true /\ array_validate_pads_previous = true /\ predefined_names <> [] /\ error_classes <> [] /\ error_names <> [].
+  error_default_is_InternalError = true /\ array_validate_pads_previous = true /\
+  struct_missing_optional_means_all_optional = true /\ struct_validate_merges_previous = true /\ predefined_names <> [] /\ error_classes <> [] /\ error_names <> [].
 Proof. repeat split; try reflexivity; discriminate. Qed.
 
 (* 1. The cache entry of every parameter is the meaning (decode) of the last line accepted for it -- whatever the
@@ -95,16 +96,46 @@ Proof.
 Qed.
 
 (* 7. Write path end to end: the driver receives the value the caller passed and the cache receives the value the
-      driver returned, for conversions that round-trip (the datatype law of C02); the node's validation of an array
-      against the previous value of the parameter hands every element on (it cut the array to the previous length
-      until repository commit 672d284; the source fact array_validate_pads_previous ties the model to the fix). *)
+      driver returned, exactly when these two values round-trip through the conversions (the datatype law of C02,
+      needed at these two values only).  The statement is pointwise on purpose: the earlier version had the premises
+      "forall x, exists j, exp_c x = Some j /\ imp_n j = Some x" over ALL value ids, which no finite conversion table
+      (what Run.check_case passes, imp_of) satisfies -- it was vacuous for every case of the harness (audit, see
+      NonVacuity.v C12_e2e_write_old_premise_unsatisfiable_for_tables).  C12_e2e_write_on_tables applies it to tables.
+      The node validates arrays and structs against the previous value of the parameter: an array hands every element
+      on (it was cut to the previous length until repository commit 672d284; the source fact
+      array_validate_pads_previous ties the model to the fix); of a struct the members passed replace those of the
+      previous value and the others keep their value (partial struct), no member is lost or invented. *)
 Theorem C12_e2e_write : forall exp_c imp_n exp_n imp_c v r,
-  (forall x, exists j, exp_c x = Some j /\ imp_n j = Some x) ->
-  (forall x, exists j, exp_n x = Some j /\ imp_c j = Some x) ->
+  (exists j, exp_c v = Some j /\ imp_n j = Some v) -> (exists j, exp_n r = Some j /\ imp_c j = Some r) ->
   e2e_write exp_c imp_n exp_n imp_c v r = (Some v, Some r).
-Proof. intros; apply e2e_write_roundtrip; auto. Qed.
+Proof. intros; apply e2e_write_pointwise; auto. Qed.
+Theorem C12_e2e_write_exact : forall exp_c imp_n exp_n imp_c v r,
+  (fst (e2e_write exp_c imp_n exp_n imp_c v r) = Some v <-> (exists j, exp_c v = Some j /\ imp_n j = Some v)) /\
+  (snd (e2e_write exp_c imp_n exp_n imp_c v r) = Some r <-> (exists j, exp_n r = Some j /\ imp_c j = Some r)) /\
+  (e2e_read exp_n imp_c r = Some r <-> (exists j, exp_n r = Some j /\ imp_c j = Some r)).
+Proof.
+  intros. split; [apply e2e_write_driver_iff|split; [apply e2e_write_cache_iff|apply e2e_read_iff]].
+Qed.
+(* the theorem at the environment of a CE2E case: finite tables, two value ids that round-trip, others that do not *)
+Example C12_e2e_write_on_tables :
+  let exp := [(0, 5, Some 50); (0, 6, Some 60); (0, 7, Some 70)] in let imp := [(0, 50, Some 5); (0, 60, Some 6); (0, 70, None)] in
+  e2e_write (imp_of exp 0) (imp_of imp 0) (imp_of exp 0) (imp_of imp 0) 5 6 = (Some 5, Some 6) /\
+  fst (e2e_write (imp_of exp 0) (imp_of imp 0) (imp_of exp 0) (imp_of imp 0) 7 6) <> Some 7.
+Proof.
+  cbv zeta. split.
+  - apply C12_e2e_write; eexists; split; reflexivity.
+  - vm_compute. discriminate.
+Qed.
 Theorem C12_e2e_array_exact : forall (A : Type) (prev v : list A), array_validate prev v = v.
 Proof. intros; apply array_validate_exact. Qed.
+Theorem C12_e2e_struct_members : forall prev v,
+  (forall k, struct_get k (struct_validate prev v) =
+             match assoc_last Nat.eqb k v with Some x => Some x | None => struct_get k prev end) /\
+  ((forall kv, In kv v -> In (fst kv) (map fst prev)) -> map fst (struct_validate prev v) = map fst prev).
+Proof. intros; split; [intro; apply struct_validate_get|apply struct_validate_keys]. Qed.
+Example C12_e2e_struct_partial_demo :
+  struct_validate [(0, 11); (1, 22)] [(1, 33)] = [(0, 11); (1, 33)].
+Proof. reflexivity. Qed.
 
 (* 8. Callers of setParameter / readParameter / getParameter concurrent with the receive thread (ConcModel.v).
       A step sequence is one schedule of one peer script: every interleaving of the atomic steps of the receive
@@ -321,7 +352,9 @@ Print Assumptions C12_timestamp_not_future.
 Print Assumptions C12_malformed_skipped.
 Print Assumptions C12_register_immediate.
 Print Assumptions C12_e2e_write.
+Print Assumptions C12_e2e_write_exact.
 Print Assumptions C12_e2e_array_exact.
+Print Assumptions C12_e2e_struct_members.
 Print Assumptions C12_reply_cached_before_release.
 Print Assumptions C12_released_call_sees_its_reply.
 Print Assumptions C12_conc_is_sequential.
